@@ -247,9 +247,10 @@ class SplineFn(Transform):
     """Adapter exposing the bare spline *functions* (with arbitrary boxes) as a Transform; the
     parameters live in nn.Parameters so the pattern machinery applies. Elementwise over [B, D]."""
 
-    def __init__(self, family, bins, box, D=2, tails=None, tail_bound=1.0):
+    def __init__(self, family, bins, box, D=2, tails=None, tail_bound=1.0, extra=None):
         super().__init__()
         self.family, self.bins, self.box, self.tails, self.tail_bound = family, bins, box, tails, tail_bound
+        self.extra = dict(extra or {})
         K = bins
         if family == "linear":
             self.p0 = nn.Parameter(torch.randn(D, K))
@@ -275,6 +276,8 @@ class SplineFn(Transform):
         else:
             l, r, b, t = self.box
             kw = dict(left=l, right=r, bottom=b, top=t)
+        if self.family != "linear":
+            kw.update(self.extra)
         f = self.family
         if f == "linear":
             fn = splines.unconstrained_linear_spline if self.tails else splines.linear_spline
@@ -332,7 +335,7 @@ def spline_knots(widths_attr, uniform=False):
             k = lo + (hi - lo) * np.arange(K + 1) / K
             return k  # same for every coordinate
         p = getattr(m, widths_attr).detach().double().numpy()
-        return ref_knots_from_widths(p.reshape(-1, K), lo, hi)  # [D, K+1]
+        return ref_knots_from_widths(p.reshape(-1, K), lo, hi, min_w=MINS.get(cfg.get("mins", "default"), {}).get("min_bin_width", 1e-3))  # [D, K+1]
 
     return f
 
@@ -471,10 +474,24 @@ reg(Subject("CauchyCDFInverse", {"shape": EW_SHAPES}, lambda c: T.nonlinearities
 reg(Subject("GatedLinearUnit", {"features": [1, 2, 3]}, lambda c: T.GatedLinearUnit(), lambda c: (c["features"],), ctx=lambda c: (1,), patterns=("init",), kind="elementwise"))
 
 
+MINS = {"default": {}, "tall": {"min_bin_height": 5e-2}, "wide": {"min_bin_width": 5e-2}, "steep": {"min_derivative": 5e-2}}
+
+
+def _mins_kw(c, fam):
+    """non-default minimum bin width / height / derivative (constructor arguments of the quadratic, cubic and RQ classes)"""
+    kw = dict(MINS[c.get("mins", "default")])
+    if fam != "rq":
+        kw.pop("min_derivative", None)
+    if fam == "linear":
+        kw = {}
+    return kw
+
+
 def _cdf(cls, fam):
     def b(c):
         shape = list(_cdf_shape(c))
         kw = dict(shape=shape, num_bins=c["bins"], tails=_tails(c), tail_bound=_tb(c))
+        kw.update(_mins_kw(c, fam))
         return getattr(T, cls)(**kw)
     return b
 
@@ -499,18 +516,21 @@ DECL = {"linear": 2e-6, "quadratic": 2e-6, "cubic": 2e-5, "rq": 2e-6}  # searchs
 
 reg(Subject("PiecewiseLinearCDF", dict(CDF_AXES), _cdf("PiecewiseLinearCDF", "linear"), _cdf_shape, domain=_cdf_domain, codomain=_cdf_domain, specials=_cdf_specials, out_specials=_cdf_specials,
             kind="spline", knots=spline_knots(None, uniform=True), smooth=False))
-reg(Subject("PiecewiseQuadraticCDF", dict(CDF_AXES, bins=[3, 2, 5]), _cdf("PiecewiseQuadraticCDF", "quadratic"), _cdf_shape, domain=_cdf_domain, codomain=_cdf_domain, specials=_cdf_specials, out_specials=_cdf_specials,
+reg(Subject("PiecewiseQuadraticCDF", dict(CDF_AXES, bins=[3, 2, 5], mins=["default", "tall", "wide"]), _cdf("PiecewiseQuadraticCDF", "quadratic"), _cdf_shape, domain=_cdf_domain, codomain=_cdf_domain, specials=_cdf_specials, out_specials=_cdf_specials,
             kind="spline", knots=spline_knots("unnormalized_widths")))
-reg(Subject("PiecewiseCubicCDF", dict(CDF_AXES), _cdf("PiecewiseCubicCDF", "cubic"), _cdf_shape, domain=_cdf_domain, codomain=_cdf_domain, specials=_cdf_specials, out_specials=_cdf_specials,
+reg(Subject("PiecewiseCubicCDF", dict(CDF_AXES, mins=["default", "tall", "wide"]), _cdf("PiecewiseCubicCDF", "cubic"), _cdf_shape, domain=_cdf_domain, codomain=_cdf_domain, specials=_cdf_specials, out_specials=_cdf_specials,
             kind="spline", knots=spline_knots("unnormalized_widths")))
-reg(Subject("PiecewiseRationalQuadraticCDF", dict(CDF_AXES, identity_init=[False, True]),
-            lambda c: T.PiecewiseRationalQuadraticCDF(shape=list(_cdf_shape(c)), num_bins=c["bins"], tails=_tails(c), tail_bound=_tb(c), identity_init=c["identity_init"]),
+reg(Subject("PiecewiseRationalQuadraticCDF", dict(CDF_AXES, identity_init=[False, True], mins=["default", "tall", "wide", "steep"]),
+            lambda c: T.PiecewiseRationalQuadraticCDF(shape=list(_cdf_shape(c)), num_bins=c["bins"], tails=_tails(c), tail_bound=_tb(c), identity_init=c["identity_init"], **_mins_kw(c, "rq")),
             _cdf_shape, domain=_cdf_domain, codomain=_cdf_domain, specials=_cdf_specials, out_specials=_cdf_specials, kind="spline", knots=spline_knots("unnormalized_widths")))
 
 
 def _splinefn(fam):
     def b(c):
-        return SplineFn(fam, c["bins"], cfg_box(c), D=2, tails=_tails(c), tail_bound=_tb(c))
+        extra = _mins_kw(c, fam)
+        if fam == "rq" and c.get("identity_flag"):
+            extra["enable_identity_init"] = True
+        return SplineFn(fam, c["bins"], cfg_box(c), D=2, tails=_tails(c), tail_bound=_tb(c), extra=extra)
     return b
 
 
@@ -523,7 +543,8 @@ def _fn_codomain(c):
 
 
 for fam in ("linear", "quadratic", "cubic", "rq"):
-    reg(Subject("splinefn_" + fam, {"box": ["nonsquare", "unit", "shifted"], "bins": [3, 1, 2, 5] if fam != "quadratic" else [3, 2, 5], "tb": [None, 1.0, 2.5, 32.0]},
+    reg(Subject("splinefn_" + fam, dict({"box": ["nonsquare", "unit", "shifted"], "bins": [3, 1, 2, 5] if fam != "quadratic" else [3, 2, 5], "tb": [None, 1.0, 2.5, 32.0]},
+                                          **({} if fam == "linear" else {"mins": ["default", "tall", "wide"] + (["steep"] if fam == "rq" else [])}), **({"identity_flag": [False, True]} if fam == "rq" else {})),
                 _splinefn(fam), (2,), domain=_fn_domain, codomain=_fn_codomain, specials=_cdf_specials, out_specials=_cdf_specials, kind="spline",
                 knots=spline_knots("p0", uniform=(fam == "linear")), smooth=(fam != "linear")))
 
@@ -549,7 +570,9 @@ def _coupling(cls):
         img_shape = None
         if c["dims"].startswith("4d") and c["uncond"]:
             img_shape = list(_coupling_shape(c)[1:])
-        return getattr(T, cls)(mask, cond_fn(c), num_bins=c["bins"], tails=_tails(c), tail_bound=_tb(c), apply_unconditional_transform=c["uncond"], img_shape=img_shape)
+        fam = {"PiecewiseLinearCouplingTransform": "linear", "PiecewiseQuadraticCouplingTransform": "quadratic", "PiecewiseCubicCouplingTransform": "cubic",
+               "PiecewiseRationalQuadraticCouplingTransform": "rq"}[cls]
+        return getattr(T, cls)(mask, cond_fn(c), num_bins=c["bins"], tails=_tails(c), tail_bound=_tb(c), apply_unconditional_transform=c["uncond"], img_shape=img_shape, **_mins_kw(c, fam))
     return b
 
 
@@ -581,6 +604,8 @@ for cls, fam in (("PiecewiseLinearCouplingTransform", "linear"), ("PiecewiseQuad
     ax = dict(PW_AXES)
     if fam == "quadratic":
         ax["bins"] = [3, 2, 5]
+    if fam != "linear":
+        ax["mins"] = ["default", "tall", "wide"] + (["steep"] if fam == "rq" else [])
     reg(Subject(cls, ax, _coupling(cls), _coupling_shape, ctx=_coupling_ctx, domain=_cdf_domain, codomain=_cdf_domain, specials=_cdf_specials, out_specials=_cdf_specials,
                 kind="coupling-spline", knots=_zero_knots, smooth=(fam != "linear"), patterns=COND_PATTERNS))
 
@@ -623,7 +648,8 @@ def _ar(cls):
             return m
         if cls in ("MaskedPiecewiseLinearAutoregressiveTransform", "MaskedPiecewiseCubicAutoregressiveTransform"):
             return getattr(T, cls)(num_bins=c["bins"], **kw)
-        return getattr(T, cls)(num_bins=c["bins"], tails=_tails(c), tail_bound=_tb(c), **kw)
+        fam = "quadratic" if "Quadratic" in cls and "Rational" not in cls else "rq"
+        return getattr(T, cls)(num_bins=c["bins"], tails=_tails(c), tail_bound=_tb(c), **kw, **_mins_kw(c, "rq" if fam == "rq" else "rq"))
     return b
 
 
@@ -635,7 +661,7 @@ for cls, fam in (("MaskedPiecewiseLinearAutoregressiveTransform", "linear"), ("M
     reg(Subject(cls, dict(AR_BASE, bins=[3, 1, 2, 5]), _ar(cls), lambda c: (c["features"],), ctx=lambda c: (2,) if c["context"] else None,
                 domain=(0.0, 1.0), codomain=(0.0, 1.0), kind="ar-spline", knots=lambda m, c, p: (np.arange(c["bins"] + 1) / c["bins"]) if p[0] == "zero" else None, smooth=(fam != "linear"), patterns=COND_PATTERNS))
 for cls, fam in (("MaskedPiecewiseQuadraticAutoregressiveTransform", "quadratic"), ("MaskedPiecewiseRationalQuadraticAutoregressiveTransform", "rq")):
-    reg(Subject(cls, dict(AR_BASE, bins=[3, 2, 5] if fam == "quadratic" else [3, 1, 2, 5], tb=[None, 1.0, 2.5, 32.0]), _ar(cls), lambda c: (c["features"],),
+    reg(Subject(cls, dict(AR_BASE, bins=[3, 2, 5] if fam == "quadratic" else [3, 1, 2, 5], tb=[None, 1.0, 2.5, 32.0], mins=["default", "tall", "wide"] + (["steep"] if fam == "rq" else [])), _ar(cls), lambda c: (c["features"],),
                 ctx=lambda c: (2,) if c["context"] else None, domain=_cdf_domain, codomain=_cdf_domain, specials=_cdf_specials, out_specials=_cdf_specials, kind="ar-spline", knots=_zero_knots, patterns=COND_PATTERNS))
 reg(Subject("MaskedUMNNAutoregressiveTransform", {"integrand": ["smooth", "relu"], "features": [2, 1, 3], "hidden": [4], "context": [False, True], "blocks": [1], "blocktype": ["residual", "ff"],
                                                   "act": ["tanh"], "bn": [False], "nb_steps": [60, 20]},
